@@ -162,8 +162,18 @@ static Op op_enc(Syntax sy, long k, bool sticky) {
     return o;
 }
 
-static bool build_subject(uint64_t seed, Subject &s, bool *damaged) {
+static bool build_subject(uint64_t seed, Subject &s, bool *damaged, uint64_t index) {
     Rng rd = stream(seed, "damage");
+    if(index < pdu_types().size() && struct_size_of(pdu_types()[index])) {
+        // sweep: the all-zero structure of EVERY PDU type is explored once per batch (empty strings against SIZE lower bounds,
+        // unselected CHOICEs, missing mandatory pointers, zero-length collections)
+        s.td = pdu_types()[index];
+        s.st = value_from_spec(s.td, "zero");
+        if(!s.st) return false;
+        s.head.set("property", "C07"); s.head.set("program", SIM_PROGRAM); s.head.set("type", s.td->name); s.head.set("value", "zero");
+        *damaged = true;
+        return true;
+    }
     ValueChoice v = choose_value(seed, 200);
     s.td = v.td;
     std::string spec = v.origin;
@@ -253,7 +263,7 @@ static void explore(Subject &s, bool thorough, Rng &r) {
 
 static void c07_run(uint64_t seed, uint64_t index, bool thorough) {
     Subject s; bool damaged = false;
-    if(!build_subject(seed, s, &damaged)) { G.add("c07.skip.novalue"); return; }
+    if(!build_subject(seed, s, &damaged, index)) { G.add("c07.skip.novalue"); return; }
     G.add("c07.subjects"); G.add(damaged ? "c07.subjects.damaged" : "c07.subjects.valid");
     uint64_t fired0 = G.n["c07.fired.sink_failure"] + G.n["c07.fired.short_buffer"] + G.n["c07.fired.alloc_failure"];
     Rng r = stream(seed, "faults");
